@@ -13,7 +13,7 @@
 using namespace asl;
 using vf::fmt;
 
-static int C_EVAL, C_DIST, C_EXEC, C_POINTS, W_DELIVERED, W_DROPPED, W_DOTDOT, W_CHUNKED, W_LENGTH_BODY, W_KEEPALIVE, W_RANGE, W_TRUNC, W_SPLIT, W_EXPECT, W_FOLDED;
+static int C_EVAL, C_DIST, C_EXEC, C_POINTS, W_DELIVERED, W_DROPPED, W_DOTDOT, W_CHUNKED, W_LENGTH_BODY, W_KEEPALIVE, W_RANGE, W_TRUNC, W_SPLIT, W_EXPECT, W_FOLDED, W_QUERY;
 
 struct Rec { std::string method, path, query, proto, body; std::map<std::string, std::string> headers, params; };
 struct Srv : public HttpServer {
@@ -177,6 +177,26 @@ static void streamCase(const Stream& s, int mode, int pos, const std::string& ka
 	for (size_t i = 0; i < s.expect.size(); i++) { std::string why; if (!sameRec(o.got[i], s.expect[i], why)) vf::violation("request_fields", fmt("request %d of ", (int)i + 1) + what + ": " + why, kase); }
 }
 
+// ---- part D: query parameters: "k=v(&k=v)" built from tokens; the handler must see the decoded pairs (form decoding: '+' is a space, %XX a byte)
+static const char* QT[] = { "a", "b", "+", "%2B", "%20", "%26", "%3D", "%25", "%C3%A9" };
+static const char* QD[] = { "a", "b", " ", "+", " ", "&", "=", "%", "\xc3\xa9" };
+static void queryCase(int k1, int v1, int k2, int v2, const std::string& kase) {
+	g_case = kase; vf::cur(kase); vf::add(C_EVAL); vf::add(C_DIST);
+	// k: 1-2 tokens (index = t0 + 9*t1, t1 = 9 means none), v: 0-2 tokens (index 0 = empty)
+	auto mk = [](int idx, bool key, std::string& raw, std::string& dec) { raw.clear(); dec.clear(); if (!key) { if (idx == 0) return; idx--; } int t0 = idx % 9, t1 = idx / 9; raw += QT[t0]; dec += QD[t0]; if (t1 > 0) { raw += QT[t1 - 1]; dec += QD[t1 - 1]; } };
+	std::string rk1, dk1, rv1, dv1, rk2, dk2, rv2, dv2;
+	mk(k1, true, rk1, dk1); mk(v1, false, rv1, dv1);
+	std::string q = rk1 + "=" + rv1; std::map<std::string, std::string> exp; exp[dk1] = dv1;
+	if (k2 >= 0) { mk(k2, true, rk2, dk2); mk(v2, false, rv2, dv2); if (dk2 == dk1) return; q += "&" + rk2 + "=" + rv2; exp[dk2] = dv2; }
+	std::vector<std::string> ch(1, "GET /q?" + q + " HTTP/1.1\r\nHost: x\r\n\r\n");
+	Outcome o = runStream(ch, 0, false);
+	commonChecks(o, kase, "query '" + q + "'");
+	if (o.got.size() != 1) { vf::violation("request_count", fmt("%d requests delivered for query '", (int)o.got.size()) + q + "'", kase); return; }
+	vf::add(W_QUERY);
+	if (o.got[0].query != q) vf::violation("query_mismatch", "query string '" + o.got[0].query + "' instead of '" + q + "'", kase);
+	if (o.got[0].params != exp) { std::string g; for (std::map<std::string, std::string>::const_iterator it = o.got[0].params.begin(); it != o.got[0].params.end(); ++it) g += "[" + vf::hex(it->first) + "=" + vf::hex(it->second) + "]"; std::string w; for (std::map<std::string, std::string>::const_iterator it = exp.begin(); it != exp.end(); ++it) w += "[" + vf::hex(it->first) + "=" + vf::hex(it->second) + "]"; vf::violation("query_params", "query '" + q + "' delivered parameters " + g + ", sent " + w, kase); }
+}
+
 // ---- part C: Url strings
 static void urlCase(const std::string& u, const std::string& kase) {
 	vf::cur(kase); vf::add(C_EVAL); vf::add(C_DIST);
@@ -197,13 +217,14 @@ static void run_case(const std::string& k) {
 	else if (sscanf(k.c_str(), "tB:%d:%llu", &a, &u) == 2) targetCase("/" + tokString(TB, 8, a, u), k);
 	else if (sscanf(k.c_str(), "st:%d:%d:%d", &a, &b, &c) == 3) { if (g_streams.empty()) g_streams = streams(); if (a < (int)g_streams.size()) streamCase(g_streams[a], b, c, k); }
 	else if (k.compare(0, 4, "url:") == 0) urlCase(vf::unhex(k.substr(4)), k);
+	else { int k1, v1, k2, v2; if (sscanf(k.c_str(), "qp:%d:%d:%d:%d", &k1, &v1, &k2, &v2) == 4) queryCase(k1, v1, k2, v2, k); }
 }
 
 int main(int argc, char** argv) {
 	vf::init(argc, argv, "C09", "s_c09_http");
 	C_EVAL = vf::counter("evaluations"); C_DIST = vf::counter("distinct_nontrivial"); C_EXEC = vf::counter("traces"); C_POINTS = vf::counter("transitions"); vf::counter("states");
 	W_DELIVERED = vf::counter("w.requests_delivered_and_compared"); W_DROPPED = vf::counter("w.connections_dropped_without_request"); W_DOTDOT = vf::counter("w.targets_decoding_to_dotdot"); W_CHUNKED = vf::counter("w.chunked_bodies"); W_LENGTH_BODY = vf::counter("w.content_length_bodies");
-	W_KEEPALIVE = vf::counter("w.pipelined_keepalive"); W_RANGE = vf::counter("w.range_requests"); W_TRUNC = vf::counter("w.streams_cut_early"); W_SPLIT = vf::counter("w.streams_delivered_in_two_chunks"); W_EXPECT = vf::counter("w.expect_100"); W_FOLDED = vf::counter("w.folded_headers");
+	W_KEEPALIVE = vf::counter("w.pipelined_keepalive"); W_RANGE = vf::counter("w.range_requests"); W_TRUNC = vf::counter("w.streams_cut_early"); W_SPLIT = vf::counter("w.streams_delivered_in_two_chunks"); W_EXPECT = vf::counter("w.expect_100"); W_FOLDED = vf::counter("w.folded_headers"); W_QUERY = vf::counter("w.query_parameter_sets_compared");
 	vsched::set_fatal_handler(onFatal);
 	vsched::set_state_probe(vnet::state_hash);
 	g_root = vf::scratch_dir() + "/root"; if (system(("mkdir -p '" + g_root + "/sub' && printf 012345 > '" + g_root + "/f.txt'").c_str())) {}
@@ -223,6 +244,9 @@ int main(int argc, char** argv) {
 	}
 	vf::parallel(jobs.size(), [&](uint64_t i) { run_case(fmt("st:%d:%d:%d", jobs[i].s, jobs[i].mode, jobs[i].pos)); }, 16);
 	vf::setinfo("streams", fmt("{\"streams\": %d, \"stream_executions\": %d}", (int)g_streams.size(), (int)jobs.size()));
+	// D: query parameters
+	vf::parallel(90, [&](uint64_t k1) { for (int v1 = 0; v1 < 91; v1++) run_case(fmt("qp:%d:%d:-1:0", (int)k1, v1)); });
+	vf::parallel(9 * 10, [&](uint64_t i) { int k1 = (int)(i % 9), v1 = (int)(i / 9); for (int k2 = 0; k2 < 9; k2++) for (int v2 = 0; v2 < 10; v2++) run_case(fmt("qp:%d:%d:%d:%d", k1, v1, k2, v2)); });
 	// C: URL strings
 	int NU = (int)strlen(UA);
 	for (int len = 0; len <= (T ? 7 : 6); len++) { uint64_t n = 1; for (int i = 0; i < len; i++) n *= NU; vf::parallel((n + 255) / 256, [&](uint64_t blk) { for (uint64_t i = blk * 256; i < (blk + 1) * 256 && i < n; i++) { std::string s; uint64_t x = i; for (int k = 0; k < len; k++) { s += UA[x % NU]; x /= NU; } urlCase(s, "url:" + vf::hex(s)); } }); }
